@@ -13,4 +13,7 @@ def nontrivial(tr):
 
 
 def run(chk):
-    eg.standard_run(chk, "C01", ["fanout", "collect", "wait", "equal_events"], {"step_start", "step_end", "pub"}, nontrivial=nontrivial)
+    items = eg.collect(chk, ["fanout", "collect", "wait", "equal_events"])
+    # one invocation feeding two collect buffers (stale snapshot of one, fresh snapshot of the other), events queued behind it
+    items += eg.collect(chk, ["collect2"], paths_q=60, paths_t=400, walks_q=20, walks_t=100, depth=18)
+    eg.standard_run(chk, "C01", None, {"step_start", "step_end", "pub"}, nontrivial=nontrivial, items=items)
